@@ -149,6 +149,12 @@ pub fn note_command() {
     spend_fuel();
 }
 
+/// At the top of every iteration of the debugger's own action loop (`next_action`): spends one
+/// unit of the step budget, so that a loop which neither returns nor reads a command is bounded.
+pub fn note_action_loop() {
+    spend_fuel();
+}
+
 /// Directly before every `std::process::exit(code)` in the library.
 pub fn on_exit(code: i32) {
     if ARMED.with(|a| a.get()) {
